@@ -149,6 +149,13 @@ func drawSimpleSet(t *rapid.T, scale float64, reversed bool) Paths {
 			out[i] = c2.ReversePath(out[i])
 		}
 	}
+	// the order of the paths within a set is arbitrary (holes may come before their outers)
+	if rapid.Bool().Draw(t, "shuffle") {
+		for i := len(out) - 1; i > 0; i-- {
+			j := rapid.IntRange(0, i).Draw(t, "shuffleIdx")
+			out[i], out[j] = out[j], out[i]
+		}
+	}
 	return out
 }
 
